@@ -13,6 +13,61 @@ FUNCS = [SH + 'utils.map_match_position', SH + 'utils.correct_mark_macroname',
          # mechanically lifted: the statements that decode the raw answer
          SH + 'proofreader.run_languagetool.<decode_answer>',
          SH + 'proofreader.run_textgears.<decode_answer>']
+def html_hostile_strings(seed):
+    """HTML route (generate_html is under contract for index safety and
+    spans only; add_line_numbers and the row-splitting regex are not): the
+    real generate_html on a two-line file and one match whose string fields
+    are drawn from a hostile set (line breaks, the row separator itself,
+    quotes, ampersands, empty) -- no exception other than the clean exit"""
+    import itertools
+    import types
+    from pyvc import replay as _r
+    gh = _r.real_module('yalafi.shell.genhtml')
+    ut = _r.real_module('yalafi.shell.utils')
+
+    def jget(dic, item, typ):
+        if not isinstance(dic, dict) or item not in dic or \
+                not isinstance(dic[item], typ):
+            raise SystemExit(1)
+        return dic[item]
+    cmd = types.SimpleNamespace(context=2, link=True)
+    for m_ in (gh, ut):
+        m_.json_get = jget
+        m_.cmdline = cmd
+    gh.highlight_style = 'h'
+    gh.highlight_style_unsure = 'u'
+    gh.number_style = 'n'
+    tex = 'This isx a test.\nSecond line.\n'
+    charmap = list(range(1, len(tex) + 1))
+    hostile = ['m', 'a\nb', '<br>\n', '"', '&<>', '']
+    n, fails = 0, []
+    for msg, ctx, val, rid in itertools.product(hostile, repeat=4):
+        for off, ln in ((5, 3), (0, 1), (17, 6)):
+            n += 1
+            c = ctx + 'xx'
+            m = {'offset': off, 'length': ln, 'message': msg,
+                 'rule': {'id': rid, 'category': {'name': 'c'},
+                          'urls': [{'value': val}]},
+                 'replacements': [{'value': val}],
+                 'context': {'text': c, 'offset': 0, 'length': len(c)}}
+            try:
+                gh.generate_html(tex, charmap, [m], 'f.tex')
+            except SystemExit:
+                pass
+            except Exception as e:      # noqa
+                fails.append({'match': m, 'why': 'exception %r' % (e,)})
+                if len(fails) >= 3:
+                    return {'name': 'html-report-for-hostile-strings',
+                            'bounded': True, 'bound': 'see evidence',
+                            'evaluations': n, 'failures': fails}
+    return {'name': 'html-report-for-hostile-strings', 'bounded': True,
+            'bound': 'one match at 3 places x 6^4 combinations of hostile '
+                     'values for message, context, replacement/url, rule id',
+            'evaluations': n, 'failures': fails}
+
+
+QUICK_BOUNDED = [html_hostile_strings]
+
 TRUSTED = [
     'json_get(dic, item, typ) returns a value of type typ or does not return (six lines, assumed); json_fatal / tex2txt.fatal '
     'write one line and exit with status 1',
